@@ -164,6 +164,8 @@ type Summarizer struct {
 	exitGroups [][]*Form
 	depth      int
 	regexCache map[*ssa.Global]*RegexConst
+	// RegexParams: *regexp.Regexp parameters of a helper being evaluated for one particular call (bound to the caller's pattern)
+	RegexParams map[ssa.Value]*RegexConst
 }
 
 func NewSummarizer(p *Program, regexes map[string]*RegexConst) *Summarizer {
@@ -386,6 +388,9 @@ func constInt(v ssa.Value) (int64, bool) {
 
 // regexOf resolves the receiver of a regexp method call to a known constant.
 func (s *Summarizer) regexOf(v ssa.Value) *RegexConst {
+	if rc, ok := s.RegexParams[v]; ok {
+		return rc
+	}
 	u, ok := v.(*ssa.UnOp)
 	if !ok || u.Op != token.MUL {
 		return nil
